@@ -6,6 +6,11 @@ ROOT = os.path.dirname(os.path.dirname(os.path.abspath(__file__)))
 
 # property id -> (engine, level category, technique, level text, level note, design ref)
 CHECKS = {
+    "C11": ("SCHED", "model_checking",
+            "stateless exploration of all interleavings of the real code at hook granularity under a controlled scheduler with preemption bounding; brute-force linearizability check per execution",
+            "Every schedule with at most 2 (quick) / 3 (thorough) preemptions of 2-3 tasks x 1-2 operations from {get, contains, put, put_with_ttl(0), remove, clear} on the same and on different keys on the real MemoryCache (non-evicting and capacity-2 configurations), DiskCache (both layouts, incl. keys that used to share a temp file), MultiLayerCacheImpl [Memory, Disk], and of write/read/remove/query on one DynamicContainer; tasks run on real threads, the repository's vp_sched! points hand control to the explorer. Per execution: no operation fails unless a concurrent operation of another task touches the same key; no torn or foreign value; the call/return history is linearizable w.r.t. the map (set) specification by brute force over all orders consistent with real time; after join the reported entry count and usage equal the retrievable contents. The first schedule of every body is replayed twice (determinism), every violating schedule once more.",
+            "Trusted: sequential consistency at hook granularity (Relaxed counters not explored under weak memory); hooks sit outside lock-guard scopes, so a lock-holding segment is atomic as in reality; layered gets may miss (lenient). Hooks: cargo feature verif-hooks (commits 02e2645, 40a9c77).",
+            "DESIGN.md §2.2, §4 C11"),
     "C14": ("SEQ (outcome trees)", "model_checking",
             "exhaustive enumeration of the complete outcome tree of every policy on a grid, each path one run of the real RetryPolicy::execute under tokio's paused clock",
             "For every policy on the grid max_attempts 0..=5 x initial back-off {0,1 ms,100 ms,20 s} x max back-off {0,1 ms,10 s} x multipliers {0,0.5,1,2,10,1e308,inf,NaN,-1} x jitter on/off plus every distinct policy RetryPolicy::from_env produces from the environment-string grid: the complete tree of outcome sequences over {Ok, retryable, rate-limited with hint none/0 s/5 s, non-retryable} (a path ends where the policy stops) is executed on the real code with a scripted closure that records virtual time. Oracle: invocations <= max_attempts+1; stop at first Ok / first non-retryable and return exactly that; gap >= hint and <= 1.3 x hint with a hint, otherwise <= 1.3 x max_backoff and within [d,1.3d] for sane policies; no panic; finite virtual time.",
